@@ -309,6 +309,9 @@ class Images(Path):
         assert (
             self.max_k > self.min_k
         ), "Can't set the min force constant above the max"
+        assert (
+            self.min_k <= init_k <= self.max_k
+        ), "The initial force constant must be within [min_k, max_k]"
 
     def __eq__(self, other):
         """Equality od two climbing image NEB paths"""
